@@ -1873,6 +1873,7 @@ func (x *Exec) step(p *Path, in ssa.Instruction) {
 		vv := x.val(p, in.Value)
 		x.checkNonNil(p, mv.S, "map")
 		x.guardCheckMap(p, mv, true, in)
+		x.insertOnlyCheck(p, in.Map.Type(), mv, kv, &vv)
 		e.mapStore(p, in.Map.Type(), mv.S, kv.S, vv)
 	case *ssa.Slice:
 		x.sliceOp(p, in)
@@ -2437,4 +2438,26 @@ func (x *Exec) checkWiring(p *Path, fn *ssa.Function, fc *FuncContract) {
 func implFun(t types.Type) string {
 	n := types.TypeString(t, nil)
 	return "impl_" + strings.NewReplacer("/", "_", ".", "_", "*", "p", " ", "", "{", "", "}", "", "(", "", ")", "", ",", "_", "[", "", "]", "").Replace(n)
+}
+
+// insertOnlyCheck: a store into (or, with nv == nil, a delete from) a map field declared insert_only must not replace or
+// remove an existing entry of a shared object.
+func (x *Exec) insertOnlyCheck(p *Path, mt types.Type, mv, kv Val, nv *Val) {
+	if mv.Own == nil {
+		return
+	}
+	tc := x.e.cs.Types[mv.Own.TKey]
+	if tc == nil || !tc.InsertOnly[mv.Own.Field] || x.isFreshObj(p, mv.Own.Obj) {
+		return
+	}
+	old, dom := x.e.mapLoadX(p, nil, mt, mv.S, kv.S, true)
+	goal := not(dom)
+	if nv != nil && old.K == KScalar && nv.K == KScalar {
+		goal = or(not(dom), eq(old.S, nv.S))
+	}
+	what := "replaces"
+	if nv == nil {
+		what = "deletes"
+	}
+	x.oblige(p, "guard", "insert_only:"+mv.Own.Field, goal, []string{"C09"}, "store "+what+" an existing entry of "+shortTypeKey(mv.Own.TKey)+"."+mv.Own.Field+" (declared insert_only: the updates made through the old entry would be lost)")
 }
